@@ -188,6 +188,8 @@ def run(ctx, R, tier):
     R13 = Rules("C13")
     c13.run(ctx, R13, tier)
     for o in R13.obs:
+        if o.key in ("C13-R4|ClientConnectionJob.__call__|handlers-cannot-fail", "C13-R4|SocketServer_Multiplex.events|handlers-cannot-fail"):
+            R.add("C09-R3", "connection-end|" + o.key.split("|", 1)[1], o.desc + " (an error inside the handler skips the close() that drops the session instances)", o.ok, o.loc, o.detail)
         if o.key in ("C13-R1|__call__|close-after-disconnect", "C13-R2|events|disconnect->unregister->close"):
             R.add("C09-R3", "connection-end|" + o.key.split("|", 1)[1], o.desc + " (close() is what drops the session instances)", o.ok, o.loc, o.detail)
 
